@@ -52,7 +52,8 @@ def extract(tier):
             r = common.rng("oprun", fam, json.dumps(params, sort_keys=True))
             sc = SCALARS_C if W.cplx else SCALARS_R
             fw, ad = [], []
-            cplx_in = W.kind == "real" and fam in zoo.COMPLEX_INPUT_OK
+            # (matrix-free apply_columns allocates with the operator's real dtype: same dtype policy as finding C03-K3)
+            cplx_in = W.kind == "real" and fam in zoo.COMPLEX_INPUT_OK and "apply_columns" not in str(params.get("expr", ""))
             for (lst, n, f, raw) in ((fw, W.N, W.fwd, op.matvec), (ad, W.M, W.adj, op.rmatvec)):
                 xs = [l1.ivector(r, n, W.cplx) for _ in range(nextra)]
                 a, b = r.choice(sc), r.choice(sc)
